@@ -286,7 +286,7 @@ def sched_job(case):
 
 def run(ctx):
     quick = ctx.tier == "quick"
-    base = {"NUpdates": "2", "MaxTimers": "5" if quick else "6", "Emit": "FALSE"}
+    base = {"NUpdates": "2" if quick else "3", "MaxTimers": "5" if quick else "6", "Emit": "FALSE"}
     # (A) the design: interleavings of caller and callbacks
     ctx.tlc("Progress", CFG_MC, label="repaired protocol, return / exit: all interleavings", workers=8,
             constants=dict(base, Protocol='"locked"', AbortModes='{"none","exit"}'))
@@ -299,7 +299,7 @@ def run(ctx):
     ctx.tlc("Progress", CFG_LIVE, label="liveness under fairness: activity dies out", workers=4,
             constants=dict(base, Protocol='"locked"', AbortModes='{"none","exit"}', MaxTimers="4"))
     # (B) schedule replay on the real ProgressBar
-    nsim = 400 if quick else 4000
+    nsim = 400 if quick else 20000
     gen = ctx.tlc("Progress", CFG_GEN, label="sampled schedules for replay", workers=1,
                   constants=dict(base, Protocol='"locked"', AbortModes='{"none","exit","noexit"}', Emit="TRUE",
                                  MaxTimers="6"),
